@@ -120,8 +120,55 @@ def gen_shared_case(rng, root):
     return ch, desc
 
 
+def gen_dotted_sibling_case(rng, root):
+    """Two steps delegated to the SAME functionary, the name of one extending the other's by a dot and more ('pkg' and
+    'pkg.deb'): each sublayout's links lie in the directory named after its own step and the key - 'pkg.<key>/' is not
+    where the links of 'pkg.deb' are looked for. The links of one of the two sublayouts may be missing."""
+    pool = W.pool()
+    ch = scen.gen_chain(rng, root, n_steps=2, n_insp=0, thresholds=(1,), max_funcs=1)
+    ch.closed = False
+    k1 = rng.choice([k for k in pool if k not in ch.owners])
+    ch.layout_keys[k1.keyid] = k1.pub
+    base = rng.choice(["pkg", "build", "a"])
+    names = [base, base + rng.choice([".deb", ".x86", ".1"])]
+    if rng.random() < 0.5:
+        names.reverse()
+    inner = scen.gen_chain(rng, root, n_steps=rng.choice([1, 2]), n_insp=0, thresholds=(1,), max_funcs=1, owners=[k1],
+                           prefix="in", fmt_mode="mixed")
+    inner.closed = False
+    for s_ in inner.steps:
+        s_["rules"] = ([["ALLOW", "*"]], [["ALLOW", "*"]])
+    fmt = rng.choice(["metablock", "dsse"])
+    subs = []
+    for st, nm in zip(ch.steps, names):
+        st["name"] = nm
+        st["rules"] = ([["ALLOW", "*"]], [["ALLOW", "*"]])
+        sub = clone_sub(inner, k1)
+        sub.steps[0]["materials"] = st["materials"]
+        for ls in sub.steps[0]["links"]:
+            ls["materials"] = st["materials"]
+        sub.steps[-1]["products"] = st["products"]
+        for ls in sub.steps[-1]["links"]:
+            ls["products"] = st["products"]
+        st["keys"], st["pubkeys"], st["threshold"] = [k1], [k1.keyid], 1
+        st["links"] = [scen.link_spec(k1, fmt, nm, st["materials"], st["products"], sub=sub)]
+        subs.append(sub)
+    defect = rng.choice([None, "sublinks_missing", "sublinks_missing"])
+    which = None
+    if defect:
+        which = rng.randrange(2)
+        for s_ in subs[which].steps:
+            s_["links"] = []
+    desc = {"depth": 1, "n_sublayouts": 2, "defect": defect and "dotted_sibling:" + defect, "step_names": names,
+            "links_missing_for": names[which] if defect else None, "expected_accept": defect is None}
+    return ch, desc
+
+
 def gen_case(rng, root):
-    if rng.random() < 0.3:
+    r_ = rng.random()
+    if r_ < 0.1:
+        return gen_dotted_sibling_case(rng, root)
+    if r_ < 0.37:
         return gen_shared_case(rng, root)
     depth = rng.choice([1, 2, 2, 3])
     for _ in range(20):
